@@ -838,3 +838,28 @@ from_patch("C18", "r3-ensure-bypasses-scope-check", "C18-d2", "C18-R3|utils.(*Di
 from_patch("C19", "r10-version-cut-from-whole-path", "C19-d2", "C19-R10|updater.GetIdentifierAndVersion / path parameter")
 from_patch("C01", "r10-mgmt-start-error-shadowed", "C01-d2", "C01-R10|modules.ManageModules")
 from_patch("C03", "r9-crownjewel-read-from-secret-byte", "C03-d2", "C03-R9|database/record.Meta GenCode / flag bytes")
+
+# further instances for the round-4 rules (other sites than the seeds)
+mut("C17", "r6-fstree-retry-result-dropped", "database/storage/fstree/fstree.go",
+    "\t\terr = writeFile(dstPath, data, defaultFileMode)\n\t\tif err != nil {\n\t\t\treturn nil, fmt.Errorf(\"fstree: could not write file %s: %w\", dstPath, err)\n\t\t}\n",
+    "\t\tif err = writeFile(dstPath, data, defaultFileMode); err != nil {\n\t\t\tlog.Warningf(\"fstree: could not write file %s: %s\", dstPath, err)\n\t\t}\n",
+    "C17-R6|database/storage/fstree.(*FSTree).Put / error call:database/storage/fstree.writeFile#0", extra=[{"file": "database/storage/fstree/fstree.go", "old": "import (\n", "new": "import (\n\t\"github.com/safing/portbase/log\"\n"}])
+mut("C06", "r11-worker-panic-report-only-when-running", "modules/worker.go",
+    "\t\tpanicVal := recover()\n\t\tif panicVal != nil {\n\t\t\tme := m.NewPanicError(name, \"worker\", panicVal)\n\t\t\tme.Report()\n\t\t\terr = me\n\t\t}",
+    "\t\tpanicVal := recover()\n\t\tif panicVal != nil {\n\t\t\tme := m.NewPanicError(name, \"worker\", panicVal)\n\t\t\tif !m.stopFlag.IsSet() {\n\t\t\t\tme.Report()\n\t\t\t}\n\t\t\terr = me\n\t\t}",
+    "C06-R11|modules.(*Module).runWorker$1 / every panic path reports")
+mut("C06", "r12-prep-clean-exit-is-success", "modules/start.go",
+    "\t\t\t\tif errors.Is(rep.err, ErrCleanExit) {\n\t\t\t\t\treturn rep.err\n\t\t\t\t}", "\t\t\t\tif errors.Is(rep.err, ErrCleanExit) {\n\t\t\t\t\treturn nil\n\t\t\t\t}",
+    "C06-R12|modules.prepareModules / report error test")
+mut("C05", "r10-task-context-refreshed-without-cancel", "modules/tasks.go",
+    "\t\t// notify that we finished\n\t\tt.cancelCtx()\n", "\t\t// notify that we finished\n\t\tif t.repeat == 0 {\n\t\t\tt.cancelCtx()\n\t\t}\n",
+    "C05-R10|modules.(*Task).executeWithLocking$1 / modules.Task.ctx replaced")
+mut("C13", "r10-getmeta-nil-controller-with-notfound", "database/interface.go",
+    "\tif mustBeWriteable && db.ReadOnly() {\n\t\treturn nil, db, ErrReadOnly\n\t}\n\n\tr := i.checkCache(dbName + \":\" + dbKey)\n\tif r != nil {\n\t\tif !i.options.hasAccessPermission(r) {\n\t\t\treturn nil, db, ErrPermissionDenied\n\t\t}\n\t\treturn r.Meta(), db, nil\n\t}\n\n\tm, err = db.GetMeta(dbKey)\n\tif err != nil {\n\t\treturn nil, db, err\n\t}",
+    "\tif mustBeWriteable && db.ReadOnly() {\n\t\treturn nil, db, ErrReadOnly\n\t}\n\n\tr := i.checkCache(dbName + \":\" + dbKey)\n\tif r != nil {\n\t\tif !i.options.hasAccessPermission(r) {\n\t\t\treturn nil, db, ErrPermissionDenied\n\t\t}\n\t\treturn r.Meta(), db, nil\n\t}\n\n\tm, err = db.GetMeta(dbKey)\n\tif err != nil {\n\t\treturn nil, nil, err\n\t}",
+    "C13-R10|database.(*Interface).getMeta / return")
+mut("C18", "r4-unpack-guard-lowercased", "updater/unpacking.go",
+    "strings.HasPrefix(", "strings.HasPrefix(strings.ToLower(\"\")+", "C18-R4|updater.(*Resource).unpackZipArchive", occurrence=1)
+mut("C02", "r14-delete-resets-meta-after-mark", "database/interface.go",
+    "\tr.Meta().Delete()\n", "\tr.Meta().Delete()\n\tif i.options.AlwaysSetRelativateExpiry > 0 {\n\t\tr.Meta().SetRelativateExpiry(i.options.AlwaysSetRelativateExpiry)\n\t}\n",
+    "C02-R14|database.(*Interface).Delete / deletion mark")
